@@ -69,7 +69,7 @@ def run_proj(case, bus, ex):
     import jax.numpy as jnp
     rng = env.rng_for(*case["rs"])
     D, N = case["D"], case["N"]
-    L = float(rng.choice([1.0, 2 * np.pi, 10 ** rng.uniform(-1, 1)]))
+    L = float([1.0, 2 * np.pi, 10 ** rng.uniform(-1, 1), 10 ** rng.uniform(3, 5), 10 ** rng.uniform(-4, -2)][(case["rs"][-1] + N) % 5])      # any box size: very large / very small included
     dop = ex.spectral.build_derivative_operator(D, L, N)
     ler = ex.nonlin_fun.Leray(D, N, derivative_operator=dop)
     tol = 256 * EPS * (1 + np.log2(N ** D))
@@ -96,6 +96,15 @@ def run_proj(case, bus, ex):
         if label in ("divfree", "const"):
             e = max(e, float(np.max(np.abs(m - v))) / S)
         bus.judge("make_incompressible", e, tol, sig, sample=info, witness=dict(info, measure=e), nontrivial=had_div or label in ("divfree",))
+        # the documented indexing option: with "xy" the first two coordinates are swapped relative to the array axes (channel c <-> axis perm[c])
+        mxy = np.asarray(ex.spectral.make_incompressible(jnp.asarray(v), indexing="xy"))
+        perm = [1, 0] + list(range(2, D))
+        kfull = G.kint_full(D, N).astype(float)
+        divxy = sum(1j * kfull[perm[c_]] * G.fftn(mxy, D)[c_] for c_ in range(D))
+        vp = v[perm]                                    # component along array axis a is channel perm[a]: the same field in the ij convention (array layout unchanged)
+        refxy = np.real(G.ifftn(A.leray_full(G.fftn(vp, D), D, N, L), D))[perm]
+        exy = max(float(np.max(np.abs(divxy))) / (float(np.max(np.abs(G.fftn(v, D)))) * (N / 2) * np.sqrt(D) + 1e-300), float(np.max(np.abs(mxy - refxy))) / S)
+        bus.judge("make_incompressible", exy, tol, sig + ("xy",), witness=dict(info, indexing="xy", measure=exy), nontrivial=had_div)
 
 
 def run_rot3d(case, bus, ex):
